@@ -1531,6 +1531,10 @@ cdef class NNPS(NNPSBase):
             y = pa_wrapper.y
             z = pa_wrapper.z
 
+            # an array without particles has no extent
+            if x.length == 0:
+                continue
+
             # find min and max of variables
             x.update_min_max()
             y.update_min_max()
@@ -1543,6 +1547,11 @@ cdef class NNPS(NNPSBase):
             xmin = fmin(x.minimum, xmin)
             ymin = fmin(y.minimum, ymin)
             zmin = fmin(z.minimum, zmin)
+
+        if xmax < xmin:
+            # no particles at all
+            xmin = ymin = zmin = 0.0
+            xmax = ymax = zmax = 0.0
 
         # Add a small offset to the limits.
         lx, ly, lz = xmax - xmin, ymax - ymin, zmax - zmin
